@@ -85,6 +85,7 @@ PutExts(r, mi, m, ei, n) ==
 AddModule(mi) ==
   LET m == ModRec(mi)
       e == IF AddModuleError(m) # "" THEN AddModuleError(m)
+           ELSE IF CHECKIMPLS /\ ImplOrphan(m) THEN "impl-without-type"
            ELSE IF CHECKDUP /\ DupInModule(reg, m) THEN "duplicate-definition" ELSE ""
       paths == {Join(m.path, m.defs[i].name) : i \in DOMAIN m.defs}
                  \cup {Join(m.path, m.exts[i].name) : i \in DOMAIN m.exts}
